@@ -6,7 +6,7 @@ GENS = ["Gen_logic", "Gen_ranges"]
 
 
 def scope(ctx):
-    return (3, 150, 10) if ctx.quick else (3, 3000, 25)
+    return (3, 500, 12) if ctx.quick else (3, 4000, 25)
 
 
 def common(ctx, props_target):
@@ -14,6 +14,32 @@ def common(ctx, props_target):
     mx, nr, ml = scope(ctx)
     cases = evalcorr.corpus(ctx, mx, nr, ml)
     return built, cases
+
+
+def distribution(cases, raws):
+    """what the corpus looks like: sizes, operators, assigned states, kinds of outcome (printed into the evidence)"""
+    from collections import Counter
+
+    leaves, ops, states, outcomes, kinds = Counter(), Counter(), Counter(), Counter(), Counter()
+
+    def walk(t):
+        if t[0] == "L":
+            kinds[exprs.kind(t[1])] += 1
+        else:
+            ops[t[0]] += 1
+            walk(t[1])
+            walk(t[2])
+
+    for (t, rho), (tag, v) in zip(cases, raws):
+        n = exprs.size(t)
+        leaves["1" if n == 1 else "2" if n == 2 else "3" if n == 3 else "4-6" if n <= 6 else "7-9" if n <= 9 else "10+"] += 1
+        walk(t)
+        for s_ in rho.values():
+            states[s_] += 1
+        outcomes["evaluates" if tag == "ok" else str(v)] += 1
+    valid = sum(1 for (t, _r) in cases if exprs.dom(t) and exprs.valid(t))
+    return {"cases": len(cases), "leaves": dict(leaves), "operators": dict(ops), "leaf_kinds": dict(kinds), "assigned_states": dict(states),
+            "outcome_kinds": dict(outcomes), "in_domain_and_valid": valid}
 
 
 def correspondence(ctx, cases, tag, levels=("node", "rc")):
@@ -24,6 +50,7 @@ def correspondence(ctx, cases, tag, levels=("node", "rc")):
         n, bad, r = evalcorr.run_eval_correspondence(ctx, sub, lvl, tag=tag)
         if lvl == "node":
             raws = r
+            ctx.notes["input_distribution"] = distribution(cases, r)
         ctx.add_eval(n)
         evalcorr.report_mismatches(ctx, lvl, bad, None)
     return raws
